@@ -111,8 +111,15 @@ func (p *TFramedTransport) Read(buf []byte) (l int, err error) {
 		frameSize := p.frameSize
 		tmp := make([]byte, p.frameSize)
 		l, err = p.Read(tmp)
+		// The rest of the frame may arrive in several reads of the underlying
+		// transport: hand over all of it, not only what was buffered.
+		for err == nil && l < len(tmp) {
+			var n int
+			n, err = p.Read(tmp[l:])
+			l += n
+		}
 		copy(buf, tmp)
-		if err == nil {
+		if err == nil || l > 0 {
 			err = thrift.NewTTransportExceptionFromError(
 				fmt.Errorf("frugal: not enough frame (size %d) to read %d bytes", frameSize, len(buf)))
 			return
